@@ -352,6 +352,16 @@ func runConcurrent(c Case, choose func(int, []string) int) outcome {
 			if o.failedOp != "" {
 				cause = "fault@" + o.failedOp
 			}
+			if rollbackFault(cause) {
+				// the failing write was one of the rollback's own writes: what it could not remove is not
+				// attributed to the activation logic (counted, rest of the case abandoned)
+				if len(ms) > 0 || len(w.indexEntries(a.listen)) > 0 {
+					vkit.Excluded(1)
+					vkit.Class("excluded:failing write was a rollback write")
+					return o
+				}
+				continue
+			}
 			if len(ms) > 0 {
 				fail("C06/failed-activation-leaves-mapping/"+cause, fmt.Sprintf("activation A%d failed (%v) but mapping %s (listen %d -> %d %s) is in storage", i+1, a.err, ms[0].ID, ms[0].ListenClientID, ms[0].TargetClientID, ms[0].TargetAddress))
 				return o
